@@ -349,8 +349,10 @@ def c04_r5(ctx):
         if name != "run" and name not in getters and vals and all(norm.canon(v, gal).startswith("self.index.writer(") for v in vals):
             attempts.add(name)
 
+    ral = norm.aliases(run.node)
+
     def obtains(v):
-        t = norm.canon(v)
+        t = norm.canon(v, ral)
         return "self.index.writer(" in t or any(t == "self.%s()" % g_ for g_ in getters | attempts)
     # the local that holds the real writer: bound from self.index.writer(...) (and possibly self.writer first)
     wvars = [n for n, vals in norm.assigned_names(run.node).items() if any(v is not None and obtains(v) for v in vals)]
